@@ -2043,9 +2043,14 @@ class C06(Prop):
             "not longer than the input, same header / record sequence / contents with names equal up to ASCII case and the question name "
             "byte-identical, decompression gives back the input up to name case. Non-trivial: output shorter than input; distinct = "
             "distinct packet.")
-    strength = ("PARTIAL: proved: the case-insensitive raw-name comparison of the suffix dictionary is reflexive on well-formed names and "
-                "compression output starts with the input's header (C06_header_kept). The packet-level statement (C06_full_statement) is "
-                "decided each run by the correspondence and the reference-decoder oracle. Known finding: pointer chains deeper than 16 hops.")
+    strength = ("PARTIAL: proved at packet level (unbounded): for every accepted packet that decompression leaves unchanged, compress "
+                "succeeds (no error, none of the model's Panic outcomes) and returns a packet no longer than its input "
+                "(C06_succeeds_and_never_grows); for one name: emission = first k labels verbatim + root or a pointer to an offset the "
+                "dictionary holds for a candidate equal to the remaining suffix up to ASCII case, never longer than the name, the dictionary "
+                "grows only by (output offset where a suffix was just written, that suffix) below 16384 (C06_name_emission, "
+                "C06_dictionary_comparison); output starts with the input's header (C06_header_kept). The remaining clauses (accepted, "
+                "same records up to name case, round trip, every pointer designates its suffix in the output) are decided each run by the "
+                "correspondence and the reference-decoder oracle. Known finding: pointer chains deeper than 16 hops.")
     assumptions = ["bytes < 256", "input is pointer-free (documented precondition: compress panics on an already compressed name)"]
 
     def gen(self, rng, tier):
